@@ -104,6 +104,7 @@ def c15_rf19(run):
     rf_tables.rf154(run)
     rf_tables.rf169(run)
     rf_tables.rf184(run)
+    rf_tables.rf195(run)
 
 
 def c15_rf16h(run):
@@ -464,6 +465,7 @@ def c14_rf16f(run):
     rf_proto.rf162(run)
     rf_proto.rf171(run)
     rf_proto.rf188(run)
+    rf_proto.rf194(run)
 
 
 def c02_rf7a(run):
